@@ -20,7 +20,21 @@ def run(tier):
         configs.append(cdb.Config("host-ndebug", extra=["-DNDEBUG"]))
     for cfg in configs:
         prog = ir.Program([H.UNIT], cfg)
-        rep.add_stats(prog)
+        try:
+            rep.add_stats(prog)
+        except cdb.AnalysisBroken as ex:
+            # a member the other rules identify by name is gone: they cannot run, but the one rule that needs no names can, and
+            # what it reports stands (a violation takes precedence over the unanswered rest)
+            H.borrow_rule(prog, rep)
+            if rep.viol:
+                # only the name-free rule has run, so nothing was misread: its report stands, the rest is noted as unanswered
+                rep.renamed = 0
+                rep.deferred = []
+                rep.notes.append("not answered (rule anchors missing): " + str(ex))
+                return rep
+            raise
+        if H.borrow_rule(prog, rep) < 1:
+            rep.defer_broken("W8: the constructor no longer stores the body pointer of the request description (the borrow rule found nothing to decide)")
         # the continuation structure is needed by W1; LIN itself is C08's
         from .. import lin
         L = lin.Lin(prog, H.UNIT, H.REC, ("http_request_cancel",))
